@@ -134,6 +134,9 @@ def enumerate_cases(tier):
     for what in ("fifo", "socket", "dir", "dangling", "loop"):
         for mode in ("", "dfs"):
             cases.append({"kind": "not-a-file", "what": what, "mode": mode})
+    # an extended attribute of the ARCHIVE file is no attribute of its members
+    for mode in ("", "dfs"):
+        cases.append({"kind": "archive-xattr", "mode": mode})
     cases.append({"kind": "damage", "damage": ["empty", 0]})
     cases.append({"kind": "damage", "damage": ["directory", 0]})
     cases.append({"kind": "damage", "damage": ["unreadable", 0]})
@@ -490,8 +493,47 @@ def check_not_a_file(out, case):
         runner.rmtree(cdir)
 
 
+def check_archive_xattr(out, case):
+    cdir = runner.new_case_dir()
+    base = os.path.join(cdir, "t")
+    os.mkdir(base)
+    try:
+        with open(os.path.join(base, "a.zip"), "wb") as f:
+            f.write(trees.zip_bytes(SMALL))
+        open(os.path.join(base, "plain.txt"), "w").close()
+        try:
+            os.setxattr(os.path.join(base, "a.zip"), "user.k", b"v")
+        except OSError:
+            out.classes = ["xattr-unavailable"]
+            return
+        opts = (" " + case["mode"]) if case["mode"] else ""
+        q = "select path, has_xattr('user.k'), xattr('user.k') from . archives%s into list" % opts
+        rows = c05.run_rows(out, base, q, 3, "C19")
+        if rows is None:
+            return
+        for path, has, val in rows:
+            want = ("true", "v") if path == "./a.zip" else ("false", "") if path == "./plain.txt" else ("", "")
+            if path.startswith("[") and (has not in ("", "false") or val != ""):
+                out.add("C19/member/xattr-of-the-archive-file", query=q, row=[path, has, val])
+            elif not path.startswith("[") and (has, val) != want:
+                out.add("C19/archive-xattr/on-disk-row", query=q, row=[path, has, val], want=list(want))
+        q2 = "select path from . archives%s where has_xattr('user.k') into list" % opts
+        r2 = c05.run_rows(out, base, q2, 1, "C19")
+        if r2 is not None and sorted(r[0] for r in r2) != ["./a.zip"]:
+            out.add("C19/member/filtered-by-the-archive-files-xattr", query=q2, rows=sorted(r[0] for r in r2))
+        out.nontrivial = True
+        out.nt_keys = ["archive-xattr|" + case["mode"]]
+        out.classes = ["archive-xattr"]
+        out.sample = {"query": q, "rows": len(rows)}
+    finally:
+        runner.rmtree(cdir)
+
+
 def check(case):
     out = Outcome()
+    if case["kind"] == "archive-xattr":
+        check_archive_xattr(out, case)
+        return out
     if case["kind"] == "not-a-file":
         check_not_a_file(out, case)
         return out
